@@ -471,6 +471,31 @@ func runC05Stress(c *harness.Case) {
 	// quiescent registrations: the cached window is known exactly
 	all := rg.truth.sorted()
 	win := cachedWindow(all, cache)
+	freshNode := c.Index%5 == 2
+	if freshNode {
+		// the node is replaced (restart / fail-over): a new backend over the same store starts at the old one's
+		// revision with an EMPTY event cache. Watches are then asked from exactly that revision (a real change the new
+		// node cannot replay), from just below, from the next one and from zero, on every prefix.
+		for len(all) == 0 || all[len(all)-1].Rev != rg.n.Committed() {
+			rg.write(r, true) // make the current revision a successful change
+			all = rg.truth.sorted()
+		}
+		cur := rg.n.Committed()
+		rg.n.Retire()
+		rg.n = harness.NewNode(harness.NodeOpts{KV: rg.eng.KV, StartRev: cur, Config: backend.Config{WatchCacheSize: cache}, NoIdleYield: c.Index%7 == 3})
+		win = nil
+		for _, P := range c05Prefixes {
+			for _, st := range []struct {
+				kind string
+				S    uint64
+			}{{"at-current(empty cache)", cur}, {"below", cur - 1}, {"newest+1", cur + 1}, {"zero", 0}} {
+				w := rg.register(len(ws), st.S, st.kind, P, "fast", r)
+				w.quiescentReg = true
+				ws = append(ws, w)
+			}
+		}
+		c.Stat("registrations_on_a_fresh_node_with_empty_cache", int64(len(ws)))
+	}
 	window := [2]uint64{0, 0}
 	if len(win) > 0 {
 		window = [2]uint64{win[0].Rev, win[len(win)-1].Rev}
